@@ -27,138 +27,4 @@ theorem decShort_plain (q c : Char) (E : Str) (h1 : c ≠ q) (h2 : c ≠ bs) (h3
   rw [decShortBody]
   simp [h1, h2, h3, h4]
 
-/-! ### the replace chains fused into one pass -/
-
-theorem flatMap_flatMap' {α β γ} (l : List α) (f : α → List β) (g : β → List γ) :
-    (l.flatMap f).flatMap g = l.flatMap (fun x => (f x).flatMap g) := by
-  induction l with
-  | nil => rfl
-  | cons a t ih => simp [List.flatMap_cons, List.flatMap_append, ih]
-
-/-- per-character escape of `nt._quote_encode` -/
-def ntEsc (x : Char) : Str :=
-  if x = bs then [bs, bs] else if x = lf then [bs, 'n'] else if x = dq then [bs, dq]
-  else if x = cr then [bs, 'r'] else [x]
-
-theorem ntChain_fused (s : Str) : applyChain Tables.ntChain s = s.flatMap ntEsc := by
-  simp only [applyChain, Tables.ntChain, List.foldl, replaceStr, replaceChar, flatMap_flatMap']
-  congr 1
-  funext x
-  unfold ntEsc
-  by_cases h1 : x = bs
-  · subst h1; decide
-  by_cases h2 : x = lf
-  · subst h2; decide
-  by_cases h3 : x = dq
-  · subst h3; decide
-  by_cases h4 : x = cr
-  · subst h4; decide
-  have e1 : Char.ofNat 92 = bs := by decide
-  have e2 : Char.ofNat 10 = lf := by decide
-  have e3 : Char.ofNat 34 = dq := by decide
-  have e4 : Char.ofNat 13 = cr := by decide
-  simp only [e1, e2, e3, e4, if_neg h1, if_neg h2, if_neg h3, if_neg h4, List.flatMap_cons, List.flatMap_nil,
-    List.append_nil]
-
-theorem ntEsc_other {c : Char} (h1 : c ≠ bs) (h2 : c ≠ lf) (h3 : c ≠ dq) (h4 : c ≠ cr) : ntEsc c = [c] := by
-  simp [ntEsc, h1, h2, h3, h4]
-
-theorem nt_body_roundtrip (s : Str) : decShortBody dq (s.flatMap ntEsc ++ [dq]) = some s := by
-  induction s with
-  | nil => simp [decShort_close]
-  | cons c t ih =>
-    rw [List.flatMap_cons, List.append_assoc]
-    by_cases h1 : c = bs
-    · subst h1
-      rw [show ntEsc bs = [bs, bs] from by decide]
-      simp only [List.cons_append, List.nil_append]
-      rw [decShort_echar dq bs bs _ (by decide) (by decide), ih]; rfl
-    by_cases h2 : c = lf
-    · subst h2
-      rw [show ntEsc lf = [bs, 'n'] from by decide]
-      simp only [List.cons_append, List.nil_append]
-      rw [decShort_echar dq 'n' lf _ (by decide) (by decide), ih]; rfl
-    by_cases h3 : c = dq
-    · subst h3
-      rw [show ntEsc dq = [bs, dq] from by decide]
-      simp only [List.cons_append, List.nil_append]
-      rw [decShort_echar dq dq dq _ (by decide) (by decide), ih]; rfl
-    by_cases h4 : c = cr
-    · subst h4
-      rw [show ntEsc cr = [bs, 'r'] from by decide]
-      simp only [List.cons_append, List.nil_append]
-      rw [decShort_echar dq 'r' cr _ (by decide) (by decide), ih]; rfl
-    rw [ntEsc_other h1 h2 h3 h4]
-    simp only [List.cons_append, List.nil_append]
-    rw [decShort_plain dq c _ h3 h1 h2 h4, ih]; rfl
-
-theorem nt_lit_roundtrip' (s : Str) : decodeNT (ntQuoteEncode s) = some s := by
-  unfold ntQuoteEncode decodeNT
-  simp only [List.cons_append, if_true]
-  rw [ntChain_fused]
-  exact nt_body_roundtrip s
-
-/-! ### Turtle short form -/
-
-theorem flatMap_congr' {α β} (l : List α) (f g : α → List β) (h : ∀ x ∈ l, f x = g x) :
-    l.flatMap f = l.flatMap g := by
-  induction l with
-  | nil => rfl
-  | cons a t ih =>
-    simp only [List.flatMap_cons]
-    rw [h a (by simp), ih (fun x hx => h x (by simp [hx]))]
-
-/-- per-character escape of the short branch of `Literal._quote_encode` (no newline in the text) -/
-def tEsc (x : Char) : Str :=
-  if x = bs then [bs, bs] else if x = dq then [bs, dq] else if x = cr then [bs, 'r'] else [x]
-
-theorem shortChain_fused (s : Str) (hlf : lf ∉ s) : applyChain Tables.shortChain s = s.flatMap tEsc := by
-  simp only [applyChain, Tables.shortChain, List.foldl, replaceStr, replaceChar, flatMap_flatMap']
-  apply flatMap_congr'
-  intro x hx
-  have h2 : x ≠ lf := fun e => hlf (e ▸ hx)
-  unfold tEsc
-  have e1 : Char.ofNat 92 = bs := by decide
-  have e2 : Char.ofNat 10 = lf := by decide
-  have e3 : Char.ofNat 34 = dq := by decide
-  have e4 : Char.ofNat 13 = cr := by decide
-  simp only [e1, e2, e3, e4, if_neg h2, List.flatMap_cons, List.flatMap_nil, List.append_nil]
-  by_cases h1 : x = bs
-  · subst h1; decide
-  by_cases h3 : x = dq
-  · subst h3; decide
-  by_cases h4 : x = cr
-  · subst h4; decide
-  simp only [if_neg h1, if_neg h3, if_neg h4, List.flatMap_cons, List.flatMap_nil, List.append_nil]
-
-theorem tEsc_other {c : Char} (h1 : c ≠ bs) (h3 : c ≠ dq) (h4 : c ≠ cr) : tEsc c = [c] := by
-  simp [tEsc, h1, h3, h4]
-
-theorem turtle_short_body_roundtrip (s : Str) (hlf : lf ∉ s) :
-    decShortBody dq (s.flatMap tEsc ++ [dq]) = some s := by
-  induction s with
-  | nil => simp [decShort_close]
-  | cons c t ih =>
-    have h2 : c ≠ lf := fun e => hlf (by simp [e])
-    have ih := ih (fun h => hlf (by simp [h]))
-    rw [List.flatMap_cons, List.append_assoc]
-    by_cases h1 : c = bs
-    · subst h1
-      rw [show tEsc bs = [bs, bs] from by decide]
-      simp only [List.cons_append, List.nil_append]
-      rw [decShort_echar dq bs bs _ (by decide) (by decide), ih]; rfl
-    by_cases h3 : c = dq
-    · subst h3
-      rw [show tEsc dq = [bs, dq] from by decide]
-      simp only [List.cons_append, List.nil_append]
-      rw [decShort_echar dq dq dq _ (by decide) (by decide), ih]; rfl
-    by_cases h4 : c = cr
-    · subst h4
-      rw [show tEsc cr = [bs, 'r'] from by decide]
-      simp only [List.cons_append, List.nil_append]
-      rw [decShort_echar dq 'r' cr _ (by decide) (by decide), ih]; rfl
-    rw [tEsc_other h1 h3 h4]
-    simp only [List.cons_append, List.nil_append]
-    rw [decShort_plain dq c _ h3 h1 h2 h4, ih]; rfl
-
 end RV.C03
